@@ -271,6 +271,13 @@ int main(int argc, char **argv)
 		break;
 	}
 
+	/* list, stat, describe and xattr dump print through stdio: a write
+	   error (disk full, closed or broken pipe) only shows up here */
+	if (fflush(stdout) != 0 || ferror(stdout)) {
+		perror("stdout");
+		goto out;
+	}
+
 	status = EXIT_SUCCESS;
 out:
 	sqfs_dir_tree_destroy(n);
